@@ -113,6 +113,17 @@ func tmRep(ns int64, rep int) time.Time {
 	return t
 }
 
+func stripPoke(line string) string {
+	ws := strings.Fields(line)
+	out := ws[:0:0]
+	for _, w := range ws {
+		if !strings.HasPrefix(w, "poke=") {
+			out = append(out, w)
+		}
+	}
+	return strings.Join(out, " ")
+}
+
 func repOf(ws []string) int {
 	n, ok := kvInt(ws, "rep")
 	if !ok || n < 0 || n >= nReps {
@@ -121,11 +132,13 @@ func repOf(ws []string) int {
 	return int(n)
 }
 
+// stripRep removes what the model does not look at: the representation of the
+// clock value and the poking of objects handed out by accessors.
 func stripRep(line string) string {
 	ws := strings.Fields(line)
 	out := ws[:0:0]
 	for _, w := range ws {
-		if !strings.HasPrefix(w, "rep=") {
+		if !strings.HasPrefix(w, "rep=") && !strings.HasPrefix(w, "poke=") {
 			out = append(out, w)
 		}
 	}
@@ -413,6 +426,22 @@ func (c *ctx) jwtStages(tok string, v jwt.Verifier, now time.Time, line string) 
 	if stage != "ok" {
 		return stage, nil
 	}
+	// the caller changes a token it got back; verifying the same text again gives the same token
+	if t2, err := jwt.DecodeAndVerify(bg, tok, v, now); err == nil {
+		want := showTok(t2)
+		t2.Header.Alg, t2.Header.Typ, t2.Header.KeyID = "x", "x", "x"
+		t2.ClaimSet.Exp, t2.ClaimSet.Iat, t2.ClaimSet.Iss = 0, 1<<40, "x"
+		for i := range t2.Payload {
+			t2.Payload[i] ^= 0xff
+		}
+		for i := range t2.Signature {
+			t2.Signature[i] ^= 0xff
+		}
+		if t3, err := jwt.DecodeAndVerify(bg, tok, v, now); err != nil || showTok(t3) != want {
+			c.rep.Fail("verifier-state-reachable-through-accessor",
+				"after the caller changed the token object returned by DecodeAndVerify, verifying the same text again gives another answer", []string{line})
+		}
+	}
 	return "ok", full
 }
 
@@ -628,6 +657,23 @@ func (c *ctx) pcOp(ws []string, line string) string {
 		if serr != nil {
 			return "state-error"
 		}
+		// what Get / GetPassCode hand out is not the stored record
+		if r, err := c.roles.Get(roleName); err == nil && r != nil {
+			r.Disabled, r.Name = !r.Disabled, "poked"
+		}
+		if pc, err := c.roles.GetPassCode(roleName); err == nil && pc != nil {
+			pc.Code, pc.TriedTooManyTimes = "poked", true
+			if pc.Valid != nil {
+				pc.Valid.Sec += 1000
+			}
+			if pc.Expire != nil {
+				pc.Expire.Sec += 1000
+			}
+		}
+		if st2, err := c.roles.VerifState(roleName); err != nil || fmt.Sprintf("%+v", *st2) != fmt.Sprintf("%+v", *st) {
+			c.failHist("verifier-state-reachable-through-accessor",
+				"changing the objects returned by Roles.Get / GetPassCode changed the stored record", append([]string{}, c.hist...))
+		}
 		c.recordOracle(st)
 		return showState(st, c.codes)
 	}
@@ -709,6 +755,17 @@ func (c *ctx) runOp(line string) (out string) {
 	rep := repOf(ws)
 	curRep = rep
 	out = c.runOp1(line)
+	_, poked := kvGet(ws, "poke")
+	if poked && len(ws) > 0 && ws[0] != "pc" {
+		// What an accessor hands out (Header(), the identity of a card, a decoded token) is
+		// not the verifier's state: changing it must not change any verdict.
+		curRep = rep
+		if out0 := c.runOp1(stripPoke(line)); out0 != out {
+			c.rep.Fail("verifier-state-reachable-through-accessor",
+				fmt.Sprintf("%s answers %q after the caller changed an object returned by an accessor of the verifier, and %q without that", ws[0], clip(out, 60), clip(out0, 60)),
+				[]string{line})
+		}
+	}
 	if rep == 0 || len(ws) == 0 || ws[0] == "conc" {
 		return out
 	}
@@ -1034,6 +1091,18 @@ func (c *ctx) runOp1(line string) string {
 			return "bad-op"
 		}
 		v := jwt.NewHS256(k, string(kid))
+		if pk, ok := kvGet(ws, "poke"); ok {
+			f := strings.Split(pk, "/")
+			if len(f) != 3 {
+				return "bad-op"
+			}
+			// the caller of Header() changes what it got (twice: a copy handed out later is changed too)
+			for i := 0; i < 2; i++ {
+				if h, err := v.Header(bg); err == nil && h != nil {
+					h.Alg, h.Typ, h.KeyID = string(hx.UnHex(f[0])), string(hx.UnHex(f[1])), string(hx.UnHex(f[2]))
+				}
+			}
+		}
 		st, t := c.jwtStages(string(tok), v, tm(now), line)
 		if t == nil {
 			return st
@@ -1061,7 +1130,18 @@ func (c *ctx) runOp1(line string) string {
 		if !(ok1 && ok2 && ok3 && ok4) {
 			return "bad-op"
 		}
-		card := c.card(ks)
+		var card identity.Card = c.card(ks)
+		if _, ok := kvGet(ws, "poke"); ok {
+			// the card is an identity core; the caller changes the identity it handed out
+			core := buildCore(c, ks, time.Now)
+			if id, err := core.Identity(bg); err == nil && id != nil {
+				for _, pk := range id.PublicKeys {
+					pk.ID, pk.Type, pk.Key, pk.NotValidAfter, pk.NotValidBefore = "poked", "poked", "poked", 1<<40, 0
+				}
+				id.PublicKeys = append(id.PublicKeys, &identity.PublicKey{ID: "main", Type: "ssh-rsa", Key: c.keyText("k0"), NotValidAfter: 1 << 40})
+			}
+			card = core
+		}
 		v := identity.NewJWTVerifier(card)
 		st, t := c.jwtStages(string(tok), v, tm(now), line)
 		if ws[0] == "self" {
